@@ -36,9 +36,66 @@ RULE = ("pairs of sketches (sizes 0..200 mostly, up to 3000) in every size relat
         "downsample flag, through MinHash, SourmashSignature and the comparison dataclasses; for different scaled values (and for num "
         "sketches) the same ops on EXPLICITLY downsampled copies, which must answer identically; IEEE primitives of the angular tail "
         "(fsqrt, fcos); the oracle recomputes the textbook values with Python sets, exact integers and Fractions from the hashes the "
-        "implementation reports; non-trivial = a non-empty sketch and >= 3 numeric answers; distinct = distinct op lists")
+        "implementation reports; non-trivial = a non-empty sketch and >= 3 numeric answers; distinct = distinct op lists. "
+        "PERIPHERY (adapter, unseen by the model, per-case counter): every comparison goes through alternating routes (positional / "
+        "keyword / defaulted arguments, MinHash vs SourmashSignature wrapper incl. max_/avg_containment, jaccard() vs "
+        "similarity(ignore_abundance=True), the FFI entry points kmerminhash_similarity / _count_common / _angular_similarity / "
+        "_jaccard called directly, mutable / frozen / pickled / copied / thawed operands); views must agree (len vs hashes vs "
+        "get_mins, intersection_and_union_size vs count_common vs len(a&b), len(a|b), is_compatible both ways, every property of "
+        "Frac/NumMinHashComparison vs the MinHash-level value on its mh1_cmp/mh2_cmp, cosine vs angular, pass_threshold); every "
+        "read-only call is made twice, operands are digested before and after, every comparison object is kept and re-read after "
+        "later calls; implementation-only `@frac` observations (intersect_mh, weighted_intersection, pass_threshold) are judged by "
+        "the oracle. extra: 400 (thorough 6000) Rust-level cases through the rust-harness twin: count_common / intersection_size / "
+        "jaccard / similarity / angular_similarity of KmerMinHash AND KmerMinHashBTree, BTree == Vec == model")
+
+def btree_twin(chk, pkg):
+    """the Rust-level comparison entry points of BOTH sketch types: count_common / intersection_size / jaccard /
+    similarity / angular_similarity on a KmerMinHash and a KmerMinHashBTree holding the same content (rust-harness
+    `twin`); the tree-backed half must equal the array-backed half, which must equal the model"""
+    import common
+    import rust_harness
+    rust_harness.build()
+    n = 6000 if chk.tier == "thorough" else 400
+    cases = [cmp.gen_rust_case(chk.rng) for _ in range(n)]
+    text = "".join("# case\n" + "".join(l + "\n" for l in c) for c in cases)
+    rc, out, err = rust_harness.run("twin", text)
+    if rc != 0:
+        chk.add_violation("crash", "C05:btree:harness-crash", "rust-harness died on a twin case: " + err[-300:], {})
+        return
+    impl = common.split_cases(out)
+    model = common.split_cases(common.run_model("cmp", text))
+    nq = 0
+    for case, io, mo in zip(cases, impl, model):
+        for k, (op, obs) in enumerate(zip(case, io)):
+            w = op.split()
+            if w[0] in ("new", "addab", "addmany"):
+                continue
+            nq += 1
+            halves = obs.split(" | ")
+            if len(halves) != 2 or halves[0] != halves[1]:
+                chk.add_violation("oracle", "C05:btree-differs:" + w[0],
+                                  f"`{op}`: KmerMinHash answers `{halves[0]}`, KmerMinHashBTree `{halves[-1]}` on the same content",
+                                  {"case": case[:k + 1], "impl": io[:k + 1], "op_index": k})
+                break
+            got = cmp.rust_norm(halves[0])
+            exp = mo[k] if k < len(mo) else "<none>"
+            if exp.startswith("err "):
+                exp = "err"
+            if not cmp.same(got, exp):
+                chk.add_violation("correspondence", "C05:corr:rust:" + w[0],
+                                  f"Rust-level `{op}`: implementation {got}, model {exp}",
+                                  {"case": case[:k + 1], "impl": io[:k + 1], "model": mo[:k + 1], "first_diff_at": k},
+                                  concrete=False)
+                break
+    chk.cov["rust_twin"] = {"cases": n, "comparison_ops": nq}
+
 
 def extra(chk, pkg):
+    btree_twin(chk, pkg)
+    libm_laws(chk, pkg)
+
+
+def libm_laws(chk, pkg):
     """the laws assumed of the two libm functions (AcosLaws, BiasLaws in Lemmas/CompareFloat.lean) are sampled on
     this machine's libm (the one the implementation and the driver call); a failure is reported, never silently
     accepted"""
